@@ -38,6 +38,17 @@ def inputs(tier):
     sib = list(A.sibling_graph_specs(child_payloads=("P3", "P3f", "P4", "P1")))
     for g in sib if tier != "quick" else sib[::5]:
         out.append(("G" + A.graph_name(g), A.graph_samples(g), [r"k\d"]))
+    # two recursive models at once (the root merges with one child, another child merges with its own child under a loose policy):
+    # the layout code then has to choose a parent for a model whose parents are itself and the root
+    for rp in ("P1", "P2"):
+        for w1 in ("plain", "list"):
+            for w2 in ("plain", "list"):
+                for w3 in ("plain", "list"):
+                    for g in ([rp, [["c", w1, ["P1", []]], ["d", w2, ["P3", [["c", w3, ["P3", []]]]]]]],
+                              [rp, [["c", w2, ["P3", [["c", w3, ["P3", []]]]]], ["d", w1, ["P1", []]]]]):
+                        key = "G" + A.graph_name(g)
+                        if not any(k == key for k, _, _ in out):
+                            out.append((key, A.graph_samples(g), [r"k\d"]))
     # wide merge groups: k similar models hanging off one root (the group-iteration-order shape)
     for k in (2, 3, 4, 5):
         o = {}
@@ -64,6 +75,9 @@ def configs(tier):
                 (("default", "exact") if tier == "quick" else ("default", "exact", "percent_50"))
             for merge in merges:
                 out.append((fw, layout, merge))
+    if tier == "quick":
+        # a loose merge policy makes recursive model graphs (a model merged with its own child): parent choice during layout
+        out += [("base", "flat", "percent_50"), ("base", "nested", "percent_50")]
     return out
 
 
